@@ -98,7 +98,7 @@ def make_args_unique(a: ast.Lambda) -> ast.Lambda:
         def visit_Name(self, node: ast.Name) -> ast.Name:
             for n in reversed(self._arg_stack):
                 if n[0] == node.id:
-                    return ast.Name(id=n[1])
+                    return ast.Name(id=n[1], ctx=getattr(node, "ctx", ast.Load()))
             return node
 
     return replace_args().visit(copy.deepcopy(a))
@@ -531,12 +531,11 @@ class simplify_chained_calls(FuncADLNodeTransformer):
                 new_body = self.visit(node.body)
             return ast.Lambda(args=new_args, body=new_body)
 
-        new_names = [(arg.arg, arg_name()) for arg in a.args]
-        with stack_frame(self._arg_stack):
-            for old, new in new_names:
-                self._arg_stack.define_name(old, ast.Name(new, ast.Load()))
-            new_body = self.visit(node.body)
-        return lambda_build([new for _, new in new_names], new_body)
+        # Renamed before anything is substituted: afterwards no name on the stack is spelled like
+        # a parameter, so a name that is free in a substituted argument is not taken for one when
+        # a rewritten sub-expression is visited a second time.
+        func = make_args_unique(node)
+        return ast.Lambda(args=func.args, body=self.visit(func.body))
 
     def visit_Subscript_Tuple(self, v: ast.Tuple, s: ast.Constant):
         """
